@@ -18,7 +18,7 @@ const OPTIONS_MARK: &str = "[options]";
 static RE_DEFAULT_VALUE: LazyLock<Regex> =
     LazyLock::new(|| Regex::new(r"\[default: (.*)\]").unwrap());
 
-#[derive(Clone, Debug, Hash, Eq, PartialEq)]
+#[derive(Clone, Debug, Hash, Eq, PartialEq, Ord, PartialOrd)]
 pub enum OptionArg {
     Simple {
         short: Option<String>,
@@ -205,22 +205,20 @@ impl Options {
     }
 
     fn find(&self, arg_usage: &str) -> Option<OptionArg> {
+        // `hash_set` is iterated in a different order in every process: when two descriptions
+        // share a name, always answer with the same one
         if arg_usage.starts_with("--") {
             self.hash_set
-                .clone()
-                .into_iter()
-                .find_map(|option_arg| match option_arg.get_long() {
-                    Some(long) if long == arg_usage => Some(option_arg),
-                    _ => None,
-                })
+                .iter()
+                .filter(|option_arg| option_arg.get_long().as_deref() == Some(arg_usage))
+                .min()
+                .cloned()
         } else if arg_usage.starts_with('-') {
             self.hash_set
-                .clone()
-                .into_iter()
-                .find_map(|option_arg| match option_arg.get_short() {
-                    Some(short) if short == arg_usage => Some(option_arg),
-                    _ => None,
-                })
+                .iter()
+                .filter(|option_arg| option_arg.get_short().as_deref() == Some(arg_usage))
+                .min()
+                .cloned()
         } else {
             None
         }
@@ -388,6 +386,8 @@ impl Options {
         self.hash_set
             .clone()
             .into_iter()
+            // two descriptions can share a key: merge them in the same order in every process
+            .sorted()
             .map(|option_arg| {
                 let value = match option_arg.clone() {
                     OptionArg::Simple { .. } => {
@@ -422,6 +422,13 @@ impl Options {
     /// - Normalizes option-parameter formats (e.g., `-o FILE` → `-o=FILE`)
     /// - Handles attached parameters (e.g., `-oFILE` → `-o=FILE`)
     pub fn normalize_options(&self, args: &[String]) -> Result<Vec<String>> {
+        self.normalize(args, false)
+    }
+
+    /// `normalize_options` for the words of a usage pattern when `keep_separators` is set: there a
+    /// `)`, `]` or `|` after an option with a parameter is syntax, on the command line it is the
+    /// parameter and nothing else.
+    fn normalize(&self, args: &[String], keep_separators: bool) -> Result<Vec<String>> {
         let mut is_antepenultimate_with_param = false;
         args.iter()
             .flat_map(|arg| {
@@ -489,7 +496,7 @@ impl Options {
                 } else if is_antepenultimate_with_param {
                     is_antepenultimate_with_param = false;
                     match previous_arg.as_str() {
-                        ")" | "]" | "|" => Some(Ok(previous_arg.to_owned())),
+                        ")" | "]" | "|" if keep_separators => Some(Ok(previous_arg.to_owned())),
                         _ => None,
                     }
                 } else {
@@ -510,12 +517,13 @@ impl Options {
         let represented_usages = usages
             .iter()
             .map(|usage| {
-                match self.normalize_options(
+                match self.normalize(
                     &usage
                         .replace('|', " | ")
                         .split_whitespace()
                         .flat_map(|w| split_keeping_separators(w, &['[', ']', '(', ')']))
                         .collect::<Vec<_>>(),
+                    true,
                 ) {
                     Ok(expanded_usage) => Some(
                         expanded_usage
